@@ -42,7 +42,7 @@ ASSUMPTIONS = [
     "numerical-fallback force rows whose stencil crosses a "
     "boundary are not compared (counted)",
 ]
-REQUIRED = {"special:int_plateau": 4, "special:root_on_grid": 8, "special:decay_tail": 8, "special:growth": 4, "special:break_on_row": 8, "special:other_units": 10, "reject:four_rows": 2, "no_potentials:reject": 3, "accept": 60, "reject": 40, "reject:nr%4=2:api_class": 5, "reject:nr%4=2:writePotentials": 5,
+REQUIRED = {"label:longer_than_field:reject": 4, "label:eight_characters": 3, "special:int_plateau": 4, "special:root_on_grid": 8, "special:decay_tail": 8, "special:growth": 4, "special:break_on_row": 8, "special:other_units": 10, "reject:four_rows": 2, "no_potentials:reject": 3, "accept": 60, "reject": 40, "reject:nr%4=2:api_class": 5, "reject:nr%4=2:writePotentials": 5,
             "reject:nr%4=2:potable": 10, "route:potable:DL_POLY": 10, "route:potable:DLPOLY": 10,
             "route:api_class": 15, "route:writePotentials": 15}
 FMT = ("e", 7)
@@ -68,6 +68,21 @@ def _case(draw, nr_max, accept, route=None, rem=None):
             m["pair"] = []
     m.update({"cutoff": cutoff, "nr": nr, "route": route,
               "container": draw(st.sampled_from(["list", "list", "tuple", "iterator", "generator"]))})
+    return m
+
+
+@st.composite
+def _label_case(draw, nr_max, long_label):
+    """species labels that fill the 8-character field exactly, or do not fit it: the first are written, the second
+    cannot be (the header is two fixed fields) and the table is refused"""
+    m = draw(_case(nr_max, True))
+    if not m["pair"]:
+        return m
+    old = draw(st.sampled_from(sorted(set(x for a, b, _ in m["pair"] for x in (a, b)))))
+    new = draw(st.sampled_from(["Oxygen_core", "Uranium4+", "ABCDEFGHI", "shell_of_O"] if long_label else ["Oxygen_c", "U4+_core", "ABCDEFGH"]))
+    m["pair"] = [[new if a == old else a, new if b == old else b, pd] for a, b, pd in m["pair"]]
+    m["species"] = sorted(set(x for a, b, _ in m["pair"] for x in (a, b)))
+    m["label_case"] = "long" if long_label else "eight"
     return m
 
 
@@ -118,6 +133,7 @@ def strata(tier):
     out = [("accept", _case(mx, True), 12), ("root_on_grid", _special("root_on_grid"), 2),
            ("decay_tail", _special("decay_tail"), 2), ("growth", _special("growth"), 1), ("int_plateau", _special("int_plateau"), 1)]
     out.append(("break_on_row", _node_case(), 2))
+    out += [("label:eight_characters", _label_case(mx, False), 0.7), ("reject:label_longer_than_field", _label_case(mx, True), 1)]
     out += [("other_units:" + f, _units(f), 0.25) for f in gen.UNIT_FORMS if f not in ("zero", "constant")]
     for route in ("api_class", "writePotentials", "potable:DL_POLY", "potable:DLPOLY"):
         out.append(("reject:even:" + route, _case(mx, False, route, 2), 1))
@@ -200,7 +216,12 @@ def verify_text(case, out, route_kind, ctx):
 def check_case(case):
     nr, cutoff, route = case["nr"], case["cutoff"], case["route"]
     accept = nr % 4 == 0 and nr >= 8        # with four rows delpot = cutoff/(ngrid-4) does not exist
+    longest = max([0] + [len(x) for a, b, _ in case["pair"] for x in (a, b)])
+    if longest > 8:
+        accept = False                      # a label that does not fit its 8-character field cannot be written
     cls = ["accept" if accept else "reject", "route:" + route]
+    if case.get("label_case") and case["pair"]:
+        cls.append("label:" + ("longer_than_field:reject" if longest > 8 else "eight_characters"))
     if not case["pair"]:
         cls.append("no_potentials:" + ("accept" if accept else "reject"))
     if nr == 4:
